@@ -131,23 +131,33 @@ HANDSHAKE = ("m.welcome", "m.abort", "m.challenge")
 
 
 def _endings(script, start, stop):
-    """(index, how) of the events that end the join attempt / session of a connection, in order"""
+    """(index, how) of the events that end the join attempt / session of a connection, in order. Once it is over
+    (and until this side joins again) a further handshake message ends nothing: it is a protocol violation."""
     out = []
     joined = False
+    over = False
     for j in range(start, stop):
         t = script[j]
         k = _kind(t)
-        if k == "m.welcome":
-            joined = True
-        elif k == "m.abort":
+        if k in ("open", "join"):
+            over = False
+        elif k == "closed":
+            out.append((j, "closed"))
+        elif over:
+            continue
+        elif k == "m.welcome":
+            # (onWelcome returning something / raising refuses the session)
+            joined = joined or t.partition(";")[2].split("!")[0] in ("", "r")
+        elif k == "m.abort" and not joined:
             out.append((j, "m.abort"))
+            over = True
         elif k == "m.goodbye" and joined:
             out.append((j, "m.goodbye"))
             joined = False
-        elif k == "m.challenge" and ";x" in t:
+            over = True
+        elif k == "m.challenge" and ";x" in t and not joined:
             out.append((j, "m.challenge-failed"))
-        elif k == "closed":
-            out.append((j, "closed"))
+            over = True
     return out
 
 
@@ -159,6 +169,7 @@ def classify(script, i, v, fw):
     ends = _endings(script, start, i + 1)
     # (1) a handshake message (WELCOME / ABORT / failing CHALLENGE) that arrives after the join attempt or the
     # session of this connection is already over, and is handled as if it were the first one
+    late = []
     for j in range(start, i + 1):
         t = script[j]
         k = _kind(t)
@@ -166,7 +177,11 @@ def classify(script, i, v, fw):
             before = [h for (e, h) in ends if e < j and h != "closed"]
             if before:
                 name = "m.challenge-failed" if k == "m.challenge" else k
-                return f"handshake-message-accepted-after-end:{name}-after-{before[-1]}"
+                late.append((j, f"handshake-message-accepted-after-end:{name}-after-{before[-1]}"))
+    # the verdict is about the late message itself: it was not (only) rejected
+    for j, key in late:
+        if j == i:
+            return key
     # (2) asyncio: a message processed in the same loop iteration as WELCOME (same read) still meets `_session_id is None`
     if fw == "asyncio":
         for j in range(start, i + 1):
@@ -182,9 +197,14 @@ def classify(script, i, v, fw):
                     # the message the verdict is about if it is one of them, else the first of the run
                     return "asyncio:message-in-the-loop-iteration-of-welcome:" + (ev if ev in run else run[0])
     # (3) asyncio: the session ends in the loop iteration between the WELCOME continuation and onJoin
-    if fw == "asyncio" and clause in ("hook-order,onJoin", "observer-order,ready") and ev in ("pump", "tick"):
+    # (there must be a WELCOME that came in time; the onJoin of one that came after the end belongs to (1))
+    wel = [j for j in range(start, i + 1) if _kind(script[j]) == "m.welcome" and j not in [x for x, _ in late]]
+    if fw == "asyncio" and clause in ("hook-order,onJoin", "observer-order,ready") and ev in ("pump", "tick") and wel:
         how = [h for (_, h) in ends]
         return "asyncio:onJoin-after-session-end:" + (how[-1] if how else "-")
+    # (1, continued) what an accepted late handshake message leads to at later events
+    if late:
+        return late[0][1]
     if ev in ("pump", "tick"):
         prev = [_kind(t) for t in script[:i] if _kind(t) not in ("pump", "tick")]
         ev = ev + "<-" + (prev[-1] if prev else "")
